@@ -140,6 +140,15 @@ func (t *TempoController) Echo(w http.ResponseWriter, r *http.Request) {
 	return
 }
 
+// jsonString renders s as a JSON string literal (strconv.Quote emits Go escapes such as \x1b that JSON forbids).
+func jsonString(s string) []byte {
+	res, err := json.Marshal(s)
+	if err != nil {
+		return []byte(`""`)
+	}
+	return res
+}
+
 func (t *TempoController) Tags(w http.ResponseWriter, r *http.Request) {
 	defer tamePanic(w, r)
 	internalCtx, err := RunPreRequestPlugins(r)
@@ -158,7 +167,7 @@ func (t *TempoController) Tags(w http.ResponseWriter, r *http.Request) {
 		if i != 0 {
 			w.Write([]byte(","))
 		}
-		w.Write([]byte(strconv.Quote(tag)))
+		w.Write(jsonString(tag))
 		i++
 	}
 	w.Write([]byte("]}"))
@@ -316,7 +325,7 @@ func (t *TempoController) Values(w http.ResponseWriter, r *http.Request) {
 		if i != 0 {
 			w.Write([]byte(","))
 		}
-		w.Write([]byte(strconv.Quote(val)))
+		w.Write(jsonString(val))
 		i++
 	}
 	w.Write([]byte(`]}`))
